@@ -369,6 +369,21 @@ func explore(r *fw.Run, lg *tlogx.Log, n, h int, l *fw.Local, dev2 bool, pairsUp
 		capture(func(hr tlog.HashReader) { tlog.ProveTree(int64(n), int64(m), hr) })
 		capture(func(hr tlog.HashReader) { tlog.ProveRecord(int64(n), int64(m-1), hr) })
 	}
+	// counts: every stored position in one call (ascending, descending, each twice), and the first 9, 17, 65
+	if count > 2 {
+		var all, rev, dup []int64
+		for p := 0; p < count; p++ {
+			all = append(all, int64(p))
+			rev = append(rev, int64(count-1-p))
+			dup = append(dup, int64(p), int64(p))
+		}
+		sets = append(sets, all, rev, dup)
+		for _, k := range []int{9, 17, 65} {
+			if k < count {
+				sets = append(sets, all[:k], rev[:k])
+			}
+		}
+	}
 	seen := map[string]bool{}
 	cache := map[tlog.Tile][]byte{}
 	if h >= 8 && count > 24 {
